@@ -33,6 +33,8 @@ var (
 	NewBootstrap func(cmd []string, cwd string) interop.Bootstrap
 	// ResetFrontEnd resets package-level state of the front end.
 	ResetFrontEnd func()
+	// EagerInit runs the real InitHandler without an invocation and marks the front end initialised.
+	EagerInit func(sandbox rapidcore.LambdaInvokeAPI, timeoutSec int64, bs interop.Bootstrap)
 )
 
 const (
@@ -45,12 +47,13 @@ const (
 type WorldCfg struct {
 	TimeoutSec   int
 	InitCaching  bool
-	ExtFiles     []string // regular files under /opt/extensions (launched as external extensions)
-	ExtDirs      []string // directories under /opt/extensions (must be ignored)
-	FunctionName string   // AWS_LAMBDA_FUNCTION_NAME ("" = default test_function)
-	Handler      string   // handler override given on the command line (SandboxBuilder.SetHandler)
-	HandlerEnv   string   // AWS_LAMBDA_FUNCTION_HANDLER of the emulator's environment
-	BootFault    string   // "", "cmd", "cwd"
+	ExtFiles     []string          // regular files under /opt/extensions (launched as external extensions)
+	ExtDirs      []string          // directories under /opt/extensions (must be ignored)
+	FunctionName string            // AWS_LAMBDA_FUNCTION_NAME ("" = default test_function)
+	Handler      string            // handler override given on the command line (SandboxBuilder.SetHandler)
+	HandlerEnv   string            // AWS_LAMBDA_FUNCTION_HANDLER of the emulator's environment
+	BootFault    string            // "", "cmd", "cwd"
+	Env          map[string]string // extra variables of the emulator\'s own environment
 	AccountID    string
 }
 
@@ -68,6 +71,7 @@ type World struct {
 	Invokes []*Invocation
 	actors  []*Actor
 	Eng     *Engine // the engine driving this world (last created)
+	BS      interop.Bootstrap
 }
 
 var fixtureBase string
@@ -168,6 +172,14 @@ func (r *Run) NewWorld(cfg WorldCfg, uuidSeed int64) *World {
 		ResetFrontEnd()
 	}
 	os.Setenv("AWS_LAMBDA_FUNCTION_TIMEOUT", fmt.Sprintf("%d", cfg.TimeoutSec))
+	for k, v := range cfg.Env {
+		os.Setenv(k, v)
+	}
+	for _, k := range []string{"AWS_ACCESS_KEY_ID", "AWS_SECRET_ACCESS_KEY", "AWS_SESSION_TOKEN"} {
+		if _, ok := cfg.Env[k]; !ok {
+			os.Unsetenv(k)
+		}
+	}
 	if cfg.HandlerEnv != "" {
 		os.Setenv("AWS_LAMBDA_FUNCTION_HANDLER", cfg.HandlerEnv)
 	} else {
@@ -201,6 +213,7 @@ func (r *Run) NewWorld(cfg WorldCfg, uuidSeed int64) *World {
 		if cfg.BootFault != "" {
 			bs = &faultyBootstrap{Bootstrap: bs, fault: cfg.BootFault}
 		}
+		w.BS = bs
 		mux := http.NewServeMux()
 		mux.HandleFunc(InvokePath, FrontDoorHandler(b.LambdaInvokeAPI(), bs))
 		ln, err := simnet.Listen("tcp", FrontAddr)
